@@ -551,7 +551,7 @@ func collectRaceLocked(wdir string, total *ShardResult, prop string) {
 				continue
 			}
 			total.Counters["race.reports"]++
-			if !mossFrame.MatchString(blk) {
+			if !mossFrame.MatchString(blk) || harnessAccesses(blk) {
 				total.Notes = append(total.Notes, "race report without moss frame (harness): "+firstN(blk, 400))
 				total.Counters["race.harness_only"]++
 				continue
@@ -564,11 +564,34 @@ func collectRaceLocked(wdir string, total *ShardResult, prop string) {
 	}
 }
 
+// harnessAccesses reports whether both racing accesses of a report are
+// performed by harness code itself (innermost frame of each access in
+// mossverif/...): such a report is a defect of the harness - e.g. a hook
+// callback racing with the harness' own set-up - whatever moss frames sit
+// further up the stack of the goroutine that crossed the hook.  A report in
+// which the harness merely *reads memory handed out by moss* still has a moss
+// (or runtime/stdlib-under-moss) frame innermost on the other side and counts.
+func harnessAccesses(blk string) bool {
+	secs := raceAccessHdr.FindAllStringIndex(blk, -1)
+	if len(secs) < 2 {
+		return false
+	}
+	for _, s := range secs[:2] {
+		lines := strings.Split(blk[s[0]:], "\n")
+		if len(lines) < 2 || !strings.HasPrefix(strings.TrimSpace(lines[1]), "mossverif/") {
+			return false
+		}
+	}
+	return true
+}
+
+var raceAccessHdr = regexp.MustCompile(`(?m)^(Read|Write|Previous read|Previous write|Previous atomic \w+|Atomic \w+) (at|by)`)
+
 // raceKey de-duplicates a report by the innermost moss frames of the two
 // accesses, line numbers stripped.
 func raceKey(blk string) string {
 	var fr []string
-	secs := regexp.MustCompile(`(?m)^(Read|Write|Previous read|Previous write|Previous atomic \w+|Atomic \w+) (at|by)`).FindAllStringIndex(blk, -1)
+	secs := raceAccessHdr.FindAllStringIndex(blk, -1)
 	for _, s := range secs {
 		rest := blk[s[0]:]
 		lines := strings.Split(rest, "\n")
